@@ -623,6 +623,54 @@ class SBV:
         raise Unsupported("symbolic numpy integer forced to a concrete index")
 
 
+class SPyInt(SBV):
+    """a Python int known (by precondition) to lie in the int64 range, modelled by a 64-bit vector.
+    + - * carry a no-overflow obligation (`safety:pyint-overflow`), so the bit-vector model of Python's
+    unbounded arithmetic is exact wherever the obligations are discharged."""
+    __slots__ = ()
+
+    def __init__(self, zz, bits=64, signed=True):
+        SBV.__init__(self, zz, 64, True)
+
+    def _bin(self, o, f, kind=None):
+        zo, b, s = self._coerce(o)
+        r = f(self.z, zo)
+        e = eng()
+        if kind is not None and not e.in_spec:
+            if kind == "add":
+                ok = z3.And(z3.BVAddNoOverflow(self.z, zo, True), z3.BVAddNoUnderflow(self.z, zo))
+            elif kind == "sub":
+                ok = z3.And(z3.BVSubNoOverflow(self.z, zo), z3.BVSubNoUnderflow(self.z, zo, True))
+            else:
+                ok = z3.And(z3.BVMulNoOverflow(self.z, zo, True), z3.BVMulNoUnderflow(self.z, zo))
+            e.prove("safety:pyint-overflow", ok, "Python int arithmetic modelled in 64 bits must not overflow")
+        return SPyInt(r)
+
+    def __add__(self, o):
+        return self._bin(o, lambda a, b: a + b, "add")
+    __radd__ = __add__
+
+    def __sub__(self, o):
+        return self._bin(o, lambda a, b: a - b, "sub")
+
+    def __rsub__(self, o):
+        return SPyInt(z3.BitVecVal(int(o), 64)) - self if isinstance(o, int) else NotImplemented
+
+    def __mul__(self, o):
+        return self._bin(o, lambda a, b: a * b, "mul")
+    __rmul__ = __mul__
+
+    def __neg__(self):
+        return SPyInt(-self.z)
+
+    def __repr__(self):
+        return "SPyInt(%s)" % self.z
+
+
+def sym_pyint(hint="k"):
+    return SPyInt(fresh(z3.BitVecSort(64), hint))
+
+
 # ---------------------------------------------------------------------------
 # formatted numbers inside concrete strings: '{0:d}'.format(sym) -> token
 # ---------------------------------------------------------------------------
